@@ -24,7 +24,7 @@
    format has no place for the distinction): tagged_blocks=None beside a layer info, layer_count=0
    with (empty) lists, opacity/kind without overlay colour, presence flag without parameters. *)
 From PsdV Require Import Base.Prelude Psd.Codec Psd.Model Psd.Legacy Psd.Proofs Psd.Leaf Psd.LeafProofs Psd.Descriptor Psd.DescriptorProofs Psd.Effects Psd.EffectsProofs
-  Psd.Patterns Psd.PatternsProofs Psd.Struct Psd.Adjust Psd.AdjustProofs Psd.Vector Psd.VectorProofs Psd.Linked Psd.LinkedProofs Psd.FilterFx Psd.FilterFxProofs Psd.Typed.
+  Psd.Patterns Psd.PatternsProofs Psd.Struct Psd.Adjust Psd.AdjustProofs Psd.Vector Psd.VectorProofs Psd.Linked Psd.LinkedProofs Psd.FilterFx Psd.FilterFxProofs Psd.Rsrc Psd.RsrcProofs Psd.Slices Psd.SlicesProofs Psd.Typed.
 From Coq Require Import ZArith List Bool Lia.
 Import ListNotations.
 Open Scope Z_scope.
@@ -640,6 +640,107 @@ Proof.
     split; [reflexivity|]. split; [reflexivity|]. split; vm_compute; reflexivity.
 Qed.
 Print Assumptions filter_effect_roundtrip_refuted.
+
+(* ------------------------------------------------------------------ Stage 3 (5): typed image resources (Psd/Rsrc.v)
+   One table-driven codec (head layout, optional count, rows counted or "until the data ends") covers
+   AlphaIdentifiers, LayerGroupEnabledIDs, LayerGroupInfo, HalftoneScreens, TransferFunctions, DisplayInfo,
+   LayerSelectionIDs, GridGuidesInfo, PrintFlagsInfo, ResoulutionInfo, PixelAspectRatio, PrintScale - for every one of
+   the twelve tables, any number of rows, any field values the layout can hold.  Beside it PrintFlags,
+   ThumbnailResource(V4), VersionInfo, URLList, AlphaNamesUnicode, AlphaNamesPascal, PascalString. *)
+Theorem resource_table_roundtrip : forall k head rows bs n,
+  wf_rtable k head rows = true -> write_rtable k head rows = Ok (bs, n) ->
+  read_rtable k bs = Ok (head, rows) /\ n = len bs.
+Proof. intros k head rows bs n Hwf H. split; [exact (rtable_rt k head rows bs n Hwf H)|exact (wtruth_rtable k head rows bs n H)]. Qed.
+Print Assumptions resource_table_roundtrip.
+Theorem typed_resource_roundtrip : forall enc_s dec_s a bs n,
+  wf_rsrc enc_s dec_s a = true -> write_rsrc enc_s a = Ok (bs, n) -> reread_rsrc dec_s a bs = Ok a /\ n = len bs.
+Proof. intros enc_s dec_s a bs n Hwf H. split; [exact (rsrc_rt enc_s dec_s a bs n Hwf H)|exact (wtruth_rsrc enc_s a bs n H)]. Qed.
+Print Assumptions typed_resource_roundtrip.
+Theorem typed_resource_in_image_resource_roundtrip : forall enc_s dec_s sg key name a bs n rest,
+  memz sg model_res_sigs = true -> wf_name enc_s dec_s name = true -> wf_rsrc enc_s dec_s a = true ->
+  write_payload_resource enc_s sg key name (write_rsrc enc_s a) = Ok (bs, n) ->
+  read_payload_resource dec_s (reread_rsrc dec_s a) (bs ++ rest) = Ok (sg, key, name, a, rest).
+Proof.
+  intros enc_s dec_s sg key name a bs n rest Hs Hn Hwf H.
+  apply (payload_resource_rt enc_s dec_s sg key name (write_rsrc enc_s a) (reread_rsrc dec_s a) a bs n rest Hs Hn (wtruth_rsrc enc_s a)); [|exact H].
+  intros body m Hb. exact (rsrc_rt enc_s dec_s a body m Hwf Hb).
+Qed.
+Print Assumptions typed_resource_in_image_resource_roundtrip.
+
+Example typed_resource_roundtrip_satisfiable :
+  wf_rsrc raw_codec raw_codec (RTable TDisplayInfo [1] [[0; 65535; 0; 0; 0; 100; 2]; [1; 2; 3; 4; 5; 6; 0]]) = true /\
+  wf_rsrc raw_codec raw_codec (RTable THalftone [] [[3538944; 1; -2949120; 1; 0; 1]]) = true /\
+  wf_rsrc raw_codec raw_codec (RTable TGridGuides [1; 576; 576] [[100; 0]; [4294967295; 1]]) = true /\
+  wf_rsrc raw_codec raw_codec (RPrintFlags [0; 1; 0; 0; 0; 0; 1; 0] (Some 1)) = true /\
+  wf_rsrc raw_codec raw_codec (RVersionInfo 1 1 [65; 0xD83D] [] 1) = true /\
+  (exists bs n, write_rsrc raw_codec (RTable TGridGuides [1; 576; 576] [[100; 0]; [4294967295; 1]]) = Ok (bs, n) /\ n = 26).
+Proof. repeat (split; [vm_compute; reflexivity|]). do 2 eexists. split; [vm_compute; reflexivity|reflexivity]. Qed.
+
+(* what the guards exclude: a '?' field holding 2 comes back as 1; an alpha channel mode outside AlphaChannelMode is
+   written and refused by the reader *)
+Theorem typed_resource_roundtrip_refuted :
+  (exists bs n, write_print_flags [2; 0; 0; 0; 0; 0; 0; 0] None = Ok (bs, n) /\
+                read_print_flags bs = Ok ([1; 0; 0; 0; 0; 0; 0; 0], None)) /\
+  (exists bs n, write_rtable TDisplayInfo [1] [[0; 0; 0; 0; 0; 0; 7]] = Ok (bs, n) /\ read_rtable TDisplayInfo bs = Err ValueErr).
+Proof.
+  split.
+  - exists [1; 0; 0; 0; 0; 0; 0; 0], 8. split; vm_compute; reflexivity.
+  - exists [0; 0; 0; 1; 0; 0; 0; 0; 0; 0; 0; 0; 0; 0; 0; 0; 7], 17. split; vm_compute; reflexivity.
+Qed.
+Print Assumptions typed_resource_roundtrip_refuted.
+
+(* ------------------------------------------------------------------ Stage 3 (5): Slices (Psd/Slices.v)
+   Version 6: bounding box, name, count and the slices, each optionally followed by a descriptor block that the reader
+   finds by probing; versions 7 / 8: a descriptor block.  [probe_guard] (part of wf_slices) is the guard of finding
+   F-C01-4: no slice without a block is directly followed by a slice whose id is 16. *)
+Theorem slice_v6_roundtrip : forall units t x bs n rest,
+  wf_terms t = true -> wf_slice6 units x = true -> write_slice6 t x = Ok (bs, n) ->
+  (sl_data x = None -> probe_block units t rest = Ok (None, t, rest)) ->
+  read_slice6 units t (bs ++ rest) = Ok (x, t, rest) /\ n = len bs.
+Proof.
+  intros units t x bs n rest Hw Hwf H Hp. split; [exact (slice6_rt units t x bs n rest Hw Hwf H Hp)|exact (wtruth_slice6 t x bs n H)].
+Qed.
+Print Assumptions slice_v6_roundtrip.
+Theorem slices_roundtrip : forall units t x bs n,
+  wf_terms t = true -> wf_slices units x = true -> write_slices t x = Ok (bs, n) ->
+  read_slices units t bs = Ok (x, t) /\ n = len bs.
+Proof. intros units t x bs n Hw Hwf H. split; [exact (slices_rt units t x bs n Hw Hwf H)|exact (wtruth_slices t x bs n H)]. Qed.
+Print Assumptions slices_roundtrip.
+Theorem slices_in_image_resource_roundtrip : forall enc_s dec_s units t sg key name x bs n rest,
+  memz sg model_res_sigs = true -> wf_name enc_s dec_s name = true -> wf_terms t = true -> wf_slices units x = true ->
+  write_payload_resource enc_s sg key name (write_slices t x) = Ok (bs, n) ->
+  read_payload_resource dec_s (read_slices units t) (bs ++ rest) = Ok (sg, key, name, (x, t), rest).
+Proof.
+  intros enc_s dec_s units t sg key name x bs n rest Hs Hn Hw Hwf H.
+  apply (payload_resource_rt enc_s dec_s sg key name (write_slices t x) (read_slices units t) (x, t) bs n rest Hs Hn (wtruth_slices t x)); [|exact H].
+  intros body m Hb. exact (slices_rt units t x body m Hw Hwf Hb).
+Qed.
+Print Assumptions slices_in_image_resource_roundtrip.
+
+Definition ex_slice (id group origin : Z) (assoc : option Z) (data : option dblock) : slice6 :=
+  mkSlice id group origin assoc [65] 1 [0; 0; 640; 480] [104] [] [] [] 1 [] 0 0 [255; 1; 2; 3] data.
+Definition ex_slices : slices :=
+  SlicesV6 [0; 0; 640; 480] [85; 110] [ex_slice 15 1 1 (Some 7) None; ex_slice 16 1 2 None (Some (DBlock 16 ex_ll_desc)); ex_slice 16 0 0 None None].
+Example slices_roundtrip_satisfiable :
+  wf_slices [] ex_slices = false /\
+  wf_slices [] (SlicesV6 [0; 0; 640; 480] [85; 110]
+                  [ex_slice 16 1 1 (Some 7) (Some (DBlock 16 ex_ll_desc)); ex_slice 16 1 2 None None; ex_slice 17 0 0 None None]) = true.
+Proof. split; vm_compute; reflexivity. Qed.
+
+(* F-C01-4: two plain slices, the second with id 16 (group 1, origin 2): written, and the reader's probe after the
+   first slice takes the second for a descriptor block and fails with IOError instead of going back *)
+Definition plain_slice (id group origin : Z) : slice6 :=
+  mkSlice id group origin None [] 0 [0; 0; 0; 0] [] [] [] [] 0 [] 0 0 [0; 0; 0; 0] None.
+Theorem slices_roundtrip_refuted :
+  let x := SlicesV6 [0; 0; 1; 1] [] [plain_slice 0 0 0; plain_slice 16 1 2] in
+  forallb (wf_slice6 []) [plain_slice 0 0 0; plain_slice 16 1 2] = true /\ probe_guard [plain_slice 0 0 0; plain_slice 16 1 2] = false /\
+  exists bs, write_slices [] x = Ok (bs, 166) /\ read_slices [] [] bs = Err IOErr.
+Proof.
+  cbv zeta. split; [vm_compute; reflexivity|]. split; [vm_compute; reflexivity|].
+  exists (match write_slices [] (SlicesV6 [0; 0; 1; 1] [] [plain_slice 0 0 0; plain_slice 16 1 2]) with Ok (b, _) => b | Err _ => [] end).
+  split; vm_compute; reflexivity.
+Qed.
+Print Assumptions slices_roundtrip_refuted.
 
 (* back-patching the length = emitting the inner bytes after the packed length *)
 Theorem length_block_backpatch : forall buf lb body,
